@@ -11,6 +11,9 @@ import (
 	"encoding/base64"
 	"encoding/json"
 	"fmt"
+	"io"
+	"net/http"
+	"net/http/httptest"
 	"os"
 	"sort"
 	"strconv"
@@ -146,6 +149,9 @@ func VerifC10Copy(c VerifC10Case, dir string) (obs VerifC10Obs) {
 		}
 	}
 	code, ok := verifC10CopyJS[c.Kind]
+	if c.Kind == "httpecho" || c.Kind == "httpctx" {
+		ok = true
+	}
 	if !ok {
 		obs.Outcome = "setup-error"
 		obs.Detail = "unknown copy kind"
@@ -167,6 +173,17 @@ func VerifC10Copy(c VerifC10Case, dir string) (obs VerifC10Obs) {
 		return &job{dsm: dsm, id: jc.ID, title: jc.Title, pipeline: pl, schedule: "@every 2000s", runner: runner}, nil
 	}
 	tr := fmt.Sprintf(`"transform":{"Type":"JavascriptTransform","Parallelism":%d,"Code":"%s"},`, c.Par, base64.StdEncoding.EncodeToString([]byte(code)))
+	if c.Kind == "httpecho" || c.Kind == "httpctx" {
+		// an external transform service that sends back what it received (HttpTransform, without / with the namespace context)
+		srv := httptest.NewServer(http.HandlerFunc(func(w http.ResponseWriter, r *http.Request) {
+			body, _ := io.ReadAll(r.Body)
+			w.Header().Set("Content-Type", "application/json")
+			w.WriteHeader(200)
+			_, _ = w.Write(body)
+		}))
+		defer srv.Close()
+		tr = fmt.Sprintf(`"transform":{"Type":"HttpTransform","Url":"%s","SupportContext":%v},`, srv.URL, c.Kind == "httpctx")
+	}
 	runJob := func(j *job) (outcome string, detail string) {
 		defer func() {
 			if r := recover(); r != nil {
@@ -227,6 +244,15 @@ func VerifC10Copy(c VerifC10Case, dir string) (obs VerifC10Obs) {
 	_ = store.DeleteObject(server.JobDataIndex, jt.id)
 	if o, _ := runJob(jt); o == "ok" {
 		obs.ReChanges = verifC10Count(dst) - before
+		if obs.ReChanges > 0 {
+			// which entities were stored again, and as what
+			_, _ = dst.ProcessChangesRaw(uint64(before), 0, false, func(b []byte) error {
+				if len(obs.Detail) < 1500 {
+					obs.Detail += " re-stored: " + string(b)
+				}
+				return nil
+			})
+		}
 	} else {
 		obs.ReChanges = -2
 	}
